@@ -59,13 +59,13 @@ def validate(ctx: Ctx, pm: ProgramModel, rule: str, key: str, model: AObj, what:
 
 def ctx_model(mb: ModelBuilder, d: D, host_optional: bool, decorated: bool = False) -> AObj:
     """Root -> Host (mandatory/optional); Host's children: one relation of cardinality d.
-    decorated: every feature carries an attribute (which must not change which configurations exist)."""
+    decorated: every feature carries an attribute and some are abstract (neither changes which configurations exist)."""
     root = mb.feature("Root")
-    host = mb.feature("Host")
+    host = mb.feature("Host", is_abstract=decorated)
     mb.relation(root, [host], 0 if host_optional else 1, 1)
     side = mb.feature("Side")
     mb.relation(root, [side], 0, 1)
-    kids = [mb.feature(f"n{j}") for j in range(d.n)]
+    kids = [mb.feature(f"n{j}", is_abstract=(decorated and j == 0)) for j in range(d.n)]
     mb.relation(host, kids, d.min, d.max)
     if decorated:
         for i, f in enumerate([host, side] + kids):
